@@ -170,6 +170,166 @@ def run(rep: C.Report) -> None:
         twins=False,
     )
     run_num(rep, quick)
+    expr_precedence(rep)
+
+
+# documented precedence of #expr (Help:Calculation / ParserFunctions Expr.php), tightest first
+DOC_LEVELS = [
+    ("unary", ["+", "-"]),  # unary sign (prefix)
+    ("e", ["e"]),
+    ("functions", ["not", "ceil", "trunc", "floor", "abs", "exp", "ln", "sin", "cos", "tan", "acos", "asin", "atan", "sqrt"]),
+    ("pow", ["^"]),
+    ("mul", ["*", "/", "div", "mod"]),
+    ("add", ["+", "-"]),
+    ("round", ["round"]),
+    ("cmp", ["=", "!=", "<>", ">", "<", ">=", "<="]),
+    ("and", ["and"]),
+    ("or", ["or"]),
+]
+
+
+def expr_ladder():
+    """The precedence ladder of expr_fn read from the current AST: a list (outermost first) of
+    (parser name, next-tighter parser name, table variable or None)."""
+    import ast
+
+    tree = ast.parse(open(os.path.join(C.SRC, "parserfns.py")).read())
+    fn = [n for n in ast.walk(tree) if isinstance(n, ast.FunctionDef) and n.name == "expr_fn"]
+    if len(fn) != 1:
+        return None
+    defs = {n.name: n for n in fn[0].body if isinstance(n, ast.FunctionDef)}
+    edges = {}
+    for name, d in defs.items():
+        for c in ast.walk(d):
+            if isinstance(c, ast.Call) and isinstance(c.func, ast.Name) and c.func.id == "generic_binary" and len(c.args) >= 3 and isinstance(c.args[1], ast.Name) and isinstance(c.args[2], ast.Name):
+                edges[name] = (c.args[1].id, c.args[2].id)
+    # parse_expr -> first level
+    start = None
+    for c in ast.walk(defs.get("parse_expr", ast.Pass())):
+        if isinstance(c, ast.Call) and isinstance(c.func, ast.Name) and c.func.id in defs:
+            start = c.func.id
+    chain = []
+    cur = start
+    seen = set()
+    while cur is not None and cur not in seen:
+        seen.add(cur)
+        if cur in edges:
+            nxt, table = edges[cur]
+            chain.append((cur, nxt, table))
+            cur = nxt
+            continue
+        # a level that is not a generic binary level (prefix functions, unary sign): follow it to the next binary level
+        nxt = None
+        for c in ast.walk(defs.get(cur, ast.Pass())):
+            if isinstance(c, ast.Call) and isinstance(c.func, ast.Name) and c.func.id in edges and c.func.id not in seen:
+                nxt = c.func.id
+                break
+        cur = nxt
+    return chain
+
+
+def expr_precedence(rep: C.Report) -> None:
+    """Ob4: the binary-operator ladder of expr_fn realises the documented precedence order.  z3 decides, over the operator
+    tables read from the live module and the ladder read from the AST, whether some pair of binary operators is ordered
+    differently from the documentation (finite domain: degenerate use of the solver, said openly); a sat pair is replayed
+    through expand() with operand triples until the implementation and the documented parenthesisation differ."""
+    import itertools
+
+    import z3
+
+    ob = rep.add(C.Ob("Ob4 #expr binary-operator ladder realises the documented precedence", "AST + z3 (finite) + replay", ["parserfns.py:expr_fn precedence ladder", "parserfns.py:binary_*_fns tables"], "all ordered pairs of documented binary operators"))
+    try:
+        import wikitextprocessor.parserfns as P
+
+        chain = expr_ladder()
+        if not chain:
+            ob.verdict, ob.detail = C.NOT_ENCODABLE, "precedence ladder not found in expr_fn"
+            return
+        impl_level = {}  # operator -> depth (larger = binds tighter)
+        for depth, (parser, nxt, table) in enumerate(chain):
+            tab = getattr(P, table, None)
+            if not isinstance(tab, dict):
+                continue
+            for op in tab:
+                impl_level.setdefault(op, depth)
+        doc_level = {}
+        for i, (lvl, ops) in enumerate(DOC_LEVELS):
+            if lvl in ("unary", "functions"):
+                continue
+            for op in ops:
+                doc_level[op] = len(DOC_LEVELS) - i  # larger = binds tighter
+        ops = sorted(doc_level)
+        missing = [o for o in ops if o not in impl_level]
+        I = z3.Function("impl", z3.IntSort(), z3.IntSort())
+        D = z3.Function("doc", z3.IntSort(), z3.IntSort())
+        s = z3.Solver()
+        known = [o for o in ops if o in impl_level]
+        for k, o in enumerate(known):
+            s.add(I(k) == impl_level[o], D(k) == doc_level[o])
+        a, b = z3.Ints("a b")
+        s.add(a >= 0, a < len(known), b >= 0, b < len(known))
+        # documented: a binds tighter than b (or equal) but the ladder orders them differently
+        s.add(z3.Or(z3.And(D(a) > D(b), I(a) <= I(b)), z3.And(D(a) == D(b), I(a) != I(b))))
+        ob.conditions = 1
+        bad_pairs = []
+        while True:
+            r = str(s.check())
+            ob.queries += 1
+            ob.paths += 1
+            if r != "sat":
+                break
+            m = s.model()
+            ia, ib = m[a].as_long(), m[b].as_long()
+            bad_pairs.append((known[ia], known[ib]))
+            s.add(z3.Not(z3.And(a == ia, b == ib)))
+            if len(bad_pairs) > 40:
+                break
+        ob.samples.append({"ladder": [(p, t) for p, _, t in chain], "operators_missing_from_tables": missing, "misordered_pairs": bad_pairs[:10]})
+        if not bad_pairs and not missing:
+            ob.verdict = C.DISCHARGED
+            ob.confirmed_conditions = 1
+            return
+        # replay
+        from wikitextprocessor import Wtp
+
+        w = Wtp(quiet=True, quiet_output=True)
+        w.start_page("T")
+
+        def ev(e):
+            return w.expand("{{#expr:" + e + "}}")
+
+        hit = None
+        for o1, o2 in bad_pairs:
+            tight, loose = (o1, o2)  # documented: o1 at least as tight as o2
+            for x, y, z in itertools.product([0, 1, 2, 3, 5, 7], repeat=3):
+                for expr, ref in ((f"{x} {loose} {y} {tight} {z}", f"{x} {loose} ({y} {tight} {z})"), (f"{x} {tight} {y} {loose} {z}", f"({x} {tight} {y}) {loose} {z}")):
+                    if doc_level[tight] == doc_level[loose]:
+                        ref = f"({x} {o1} {y}) {o2} {z}" if expr.startswith(f"{x} {o1}") else f"({x} {o2} {y}) {o1} {z}"
+                    try:
+                        g, wv = ev(expr), ev(ref)
+                    except Exception as e:  # noqa: BLE001
+                        continue
+                    if g != wv and "error" not in wv and "Divide" not in wv:
+                        hit = (expr, g, ref, wv)
+                        break
+                if hit:
+                    break
+            if hit:
+                break
+        if missing and not hit:
+            for o in missing:
+                g = ev(f"5 {o} 2")
+                if "error" in g.lower():
+                    hit = (f"5 {o} 2", g, "(documented operator)", "a value")
+                    break
+        if hit:
+            v = rep.violation("expand(" + repr("{{#expr:" + hit[0] + "}}") + ")", f"result {hit[1]!r}; the documented precedence reads it as {hit[2]!r} = {hit[3]!r}", {"doc": "{{#expr:" + hit[0] + "}}"})
+            ob.verdict = C.VIOLATED if v.known is None else C.KNOWN
+            ob.confirmed_conditions = 1
+        else:
+            ob.detail = f"ladder orders {bad_pairs[:4]} differently from the documentation but no operand triple shows a different value -> inconclusive"
+    except Exception as e:  # noqa: BLE001
+        ob.detail += f"{type(e).__name__}: {e}"
 
 
 def run_num(rep: C.Report, quick: bool) -> None:
